@@ -465,9 +465,23 @@ class Scenario:
             s.op("%s=vnacal_make_unknown_parameter $%s %s" % (name, vc, g))
         elif prm.kind == "correlated":
             o = self.emit_param(s, prm.other, vc, uid)
-            s.rvec("sg_" + name, [prm.sigma])
-            s.op("%s=vnacal_make_correlated_parameter $%s %s NULL 1 @sg_%s" % (
-                name, vc, o, name))
+            sf = getattr(prm, "sigma_freqs", None)
+            if sf is not None:
+                # sigma on a frequency grid of its own (a list) or one value
+                # per calibration frequency ("NULL" / "@freq")
+                sv = list(prm.sigma_values)
+                s.rvec("sg_" + name, sv)
+                if isinstance(sf, str):
+                    fa = sf
+                else:
+                    s.rvec("sf_" + name, list(sf))
+                    fa = "@sf_" + name
+                s.op("%s=vnacal_make_correlated_parameter $%s %s %s %d @sg_%s"
+                     % (name, vc, o, fa, len(sv), name))
+            else:
+                s.rvec("sg_" + name, [prm.sigma])
+                s.op("%s=vnacal_make_correlated_parameter $%s %s NULL 1 "
+                     "@sg_%s" % (name, vc, o, name))
         elif prm.kind == "scalar":
             s.op("%s=vnacal_make_scalar_parameter $%s %s" % (
                 name, vc, cx(prm.values[0])))
